@@ -672,6 +672,22 @@ class ExpressionValue(Value):
 
         raise ValueError("[{}] unresolved expression".format(self.original_value))
 
+    def constant_offset(self):
+        """
+        Returns the constant that label+n, n+label or label-n adds to the address of
+        its label, or None for any other kind of expression.
+        """
+        def signed(value):
+            return -value.int if value.is_negative() else value.int
+
+        if self.operation == "+" and self.left.is_address() and self.right.is_numeric():
+            return signed(self.right)
+        if self.operation == "+" and self.right.is_address() and self.left.is_numeric():
+            return signed(self.left)
+        if self.operation == "-" and self.left.is_address() and self.right.is_numeric():
+            return -signed(self.right)
+        return None
+
     def extract_address_index_from_expression(self):
         return self.left.int if self.left.is_address() else self.right.int
 
